@@ -22,17 +22,25 @@ func init() {
 //	                   appended to cmd.Env; empty when the host environment is
 //	                   appended as it is (`append(cmd.Env, os.Environ()...)`)
 //
+//	filterPerElement   the filter loop examines every entry of os.Environ()
+//	                   exactly once and copies the kept ones into a fresh slice
+//	                   (see perElementFilter for the accepted shape); false for
+//	                   every other loop, e.g. an index loop deleting in place
+//
 // A filter is recognised when the guarded block does not pass os.Environ()
 // straight to append but goes through code (inline, or package-level helpers
-// up to two calls deep) that ranges over the entries; the stripped names are
-// the environment-variable-shaped string constants that code refers to
-// (literals, named constants, elements/keys of package-level slice/map
-// literals).  The correspondence run (tie T-B) checks the model instantiated
-// with exactly these names against the real code.
+// up to two calls deep) that loops over the entries (`range` or a three-clause
+// `for`); the stripped names are the environment-variable-shaped string
+// constants that code refers to (literals, named constants, elements/keys of
+// package-level slice/map literals).  The correspondence run (tie T-B) checks
+// the model instantiated with exactly these names and this loop shape against
+// the real code.
 func extractEnv(p *pkgs, f *facts) {
 	guarded := false
 	var stripped []string
 	filterShape := "none"
+	perElement := false
+	loopNote := "no filter loop"
 
 	start := p.fn("Client", "Start")
 	if start == nil {
@@ -74,6 +82,7 @@ func extractEnv(p *pkgs, f *facts) {
 			if hasRange {
 				filterShape = "filter"
 				stripped = names
+				perElement, loopNote = perElementFilter(p, site, 2)
 			} else {
 				filterShape = "unrecognised"
 				f.miss = append(f.miss, "Client.Start: host environment neither appended directly nor through a recognisable filter")
@@ -85,7 +94,7 @@ func extractEnv(p *pkgs, f *facts) {
 	for _, s := range stripped {
 		lits = append(lits, leanBytesOfString(s))
 	}
-	f.lean = append(f.lean, fmt.Sprintf("def env : Env.Params := ⟨%s, [%s]⟩", leanBool(guarded), strings.Join(lits, ", ")))
+	f.lean = append(f.lean, fmt.Sprintf("def env : Env.Params := ⟨%s, [%s], %s⟩", leanBool(guarded), strings.Join(lits, ", "), leanBool(perElement)))
 	has := map[string]bool{}
 	for _, s := range stripped {
 		has[s] = true
@@ -95,7 +104,289 @@ func extractEnv(p *pkgs, f *facts) {
 		stripped = []string{}
 	}
 	f.set("env", map[string]interface{}{"hostGuardedBySkip": guarded, "stripped": stripped,
-		"hostEnvShape": filterShape, "stripsInheritedControls": stripsAll})
+		"hostEnvShape": filterShape, "stripsInheritedControls": stripsAll,
+		"filterPerElement": perElement, "filterLoop": loopNote})
+}
+
+// envLoop is one loop statement of the filter code together with the scope it
+// lives in (the body of the helper function, or the guarded block itself).
+type envLoop struct {
+	stmt  ast.Stmt
+	scope *ast.BlockStmt
+	fn    *ast.FuncDecl // nil when the loop is inline in Client.Start
+}
+
+// envLoops collects every `range` / `for` statement of the code under n,
+// following package-level helpers `depth` calls deep.
+func envLoops(p *pkgs, n *ast.BlockStmt, depth int) []envLoop {
+	var out []envLoop
+	visited := map[*ast.FuncDecl]bool{}
+	var walk func(scope *ast.BlockStmt, fn *ast.FuncDecl, depth int)
+	walk = func(scope *ast.BlockStmt, fn *ast.FuncDecl, depth int) {
+		ast.Inspect(scope, func(m ast.Node) bool {
+			switch x := m.(type) {
+			case *ast.RangeStmt:
+				out = append(out, envLoop{x, scope, fn})
+			case *ast.ForStmt:
+				out = append(out, envLoop{x, scope, fn})
+			case *ast.CallExpr:
+				if depth > 0 {
+					if fd := pkgFuncOf(p, x); fd != nil && fd.Body != nil && !visited[fd] {
+						visited[fd] = true
+						walk(fd.Body, fd, depth-1)
+					}
+				}
+			}
+			return true
+		})
+	}
+	walk(n, nil, depth)
+	return out
+}
+
+func isBlankOrNil(e ast.Expr) bool {
+	if e == nil {
+		return true
+	}
+	id, ok := e.(*ast.Ident)
+	return ok && id.Name == "_"
+}
+
+// perElementFilter decides, syntactically and conservatively, whether the
+// filter code is a per-element copy into a fresh slice:
+//
+//	src := os.Environ()                       (or the call itself as the range operand)
+//	dst := make([]string, 0, …)               (or `var dst []string`, `dst := []string{}`)
+//	for _, v := range src {                   exactly one loop in the filter code; no index variable
+//	    … if <test> { continue } …            no break / goto / return / nested loop / func literal
+//	    dst = append(dst, v)                  the only assignment to dst, src or v in the loop
+//	}
+//	return dst                                (every return of the helper)
+//
+// src must not be used anywhere else except as the argument of len/cap, so the
+// slice that is walked is never modified, re-sliced or aliased by dst.
+// Anything else — an index loop, slices.Delete on the walked slice, dst :=
+// src[:0], several loops — yields false with a note saying why.
+func perElementFilter(p *pkgs, site *ast.BlockStmt, depth int) (bool, string) {
+	loops := envLoops(p, site, depth)
+	if len(loops) != 1 {
+		return false, fmt.Sprintf("%d loops in the filter code (want exactly one range loop)", len(loops))
+	}
+	lp := loops[0]
+	rs, ok := lp.stmt.(*ast.RangeStmt)
+	if !ok {
+		return false, "the filter loop is a three-clause for statement (index loop), not a range over os.Environ()"
+	}
+	if !isBlankOrNil(rs.Key) {
+		return false, "the range loop binds the index"
+	}
+	vid, ok := rs.Value.(*ast.Ident)
+	if !ok || vid.Name == "_" || rs.Tok != token.DEFINE {
+		return false, "the range loop does not bind the entry with :="
+	}
+	v := vid.Name
+	// ---- the walked slice
+	src := ""
+	switch x := rs.X.(type) {
+	case *ast.CallExpr:
+		if !isEnvironCall(x) {
+			return false, "range operand is a call other than os.Environ()"
+		}
+	case *ast.Ident:
+		src = x.Name
+	default:
+		return false, "range operand is neither os.Environ() nor a variable"
+	}
+	if src != "" {
+		defs, other := 0, 0
+		parentLenArg := map[*ast.Ident]bool{}
+		ast.Inspect(lp.scope, func(m ast.Node) bool {
+			if c, ok := m.(*ast.CallExpr); ok && len(c.Args) == 1 {
+				if fn, ok := c.Fun.(*ast.Ident); ok && (fn.Name == "len" || fn.Name == "cap") {
+					if id, ok := c.Args[0].(*ast.Ident); ok {
+						parentLenArg[id] = true
+					}
+				}
+			}
+			return true
+		})
+		var defLhs *ast.Ident
+		ast.Inspect(lp.scope, func(m ast.Node) bool {
+			if as, ok := m.(*ast.AssignStmt); ok && as.Tok == token.DEFINE && len(as.Lhs) == 1 && len(as.Rhs) == 1 {
+				if id, ok := as.Lhs[0].(*ast.Ident); ok && id.Name == src && isEnvironCall(as.Rhs[0]) {
+					defs++
+					defLhs = id
+				}
+			}
+			return true
+		})
+		ast.Inspect(lp.scope, func(m ast.Node) bool {
+			if id, ok := m.(*ast.Ident); ok && id.Name == src && id != defLhs && ast.Node(id) != ast.Node(rs.X) && !parentLenArg[id] {
+				other++
+			}
+			return true
+		})
+		if defs != 1 {
+			return false, "the walked slice is not defined exactly once by `" + src + " := os.Environ()`"
+		}
+		if other != 0 {
+			return false, "the walked slice `" + src + "` is used outside len/cap (modified, re-sliced, aliased or passed on)"
+		}
+	}
+	// ---- the loop body
+	dst := ""
+	appends := 0
+	bad := ""
+	ast.Inspect(rs.Body, func(m ast.Node) bool {
+		if bad != "" {
+			return false
+		}
+		switch x := m.(type) {
+		case *ast.BranchStmt:
+			if x.Tok != token.CONTINUE || x.Label != nil {
+				bad = "the loop body leaves the loop (" + x.Tok.String() + ")"
+			}
+		case *ast.ReturnStmt:
+			bad = "the loop body returns"
+		case *ast.FuncLit, *ast.GoStmt, *ast.DeferStmt:
+			bad = "the loop body contains a func literal / go / defer"
+		case *ast.IncDecStmt:
+			bad = "the loop body increments or decrements a variable"
+		case *ast.AssignStmt:
+			if x.Tok == token.ASSIGN && len(x.Lhs) == 1 && len(x.Rhs) == 1 {
+				if l, ok := x.Lhs[0].(*ast.Ident); ok {
+					if c, ok := x.Rhs[0].(*ast.CallExpr); ok && exprString(c.Fun) == "append" && c.Ellipsis == token.NoPos &&
+						len(c.Args) == 2 && exprString(c.Args[0]) == l.Name && exprString(c.Args[1]) == v {
+						if dst != "" && dst != l.Name {
+							bad = "the loop appends to two slices"
+						}
+						dst = l.Name
+						appends++
+						return true
+					}
+				}
+			}
+			for _, l := range x.Lhs {
+				id, ok := l.(*ast.Ident)
+				if !ok {
+					bad = "the loop body assigns through an index or selector (" + exprString(l) + ")"
+					return false
+				}
+				if x.Tok != token.DEFINE && id.Name != "_" {
+					bad = "the loop body assigns to `" + id.Name + "` other than by dst = append(dst, entry)"
+					return false
+				}
+				if id.Name == v || (src != "" && id.Name == src) {
+					bad = "the loop body redefines `" + id.Name + "`"
+					return false
+				}
+			}
+		}
+		return true
+	})
+	if bad != "" {
+		return false, bad
+	}
+	if appends != 1 || dst == "" {
+		return false, fmt.Sprintf("%d statements `dst = append(dst, %s)` in the loop (want exactly one)", appends, v)
+	}
+	if dst == src || dst == v {
+		return false, "the loop appends to the slice it walks"
+	}
+	// ---- the destination is a fresh slice, assigned nowhere else
+	fresh, otherAssign := 0, 0
+	ast.Inspect(lp.scope, func(m ast.Node) bool {
+		switch x := m.(type) {
+		case *ast.AssignStmt:
+			for i, l := range x.Lhs {
+				id, ok := l.(*ast.Ident)
+				if !ok || id.Name != dst {
+					continue
+				}
+				if x.Pos() >= rs.Body.Pos() && x.End() <= rs.Body.End() {
+					continue // the append inside the loop, checked above
+				}
+				if x.Tok == token.DEFINE && len(x.Lhs) == len(x.Rhs) && isFreshStringSlice(x.Rhs[i]) {
+					fresh++
+				} else {
+					otherAssign++
+				}
+			}
+		case *ast.DeclStmt:
+			if gd, ok := x.Decl.(*ast.GenDecl); ok && gd.Tok == token.VAR {
+				for _, sp := range gd.Specs {
+					vs := sp.(*ast.ValueSpec)
+					for i, n := range vs.Names {
+						if n.Name != dst {
+							continue
+						}
+						if len(vs.Values) == 0 && exprString2(vs.Type) == "[]string" {
+							fresh++
+						} else if i < len(vs.Values) && isFreshStringSlice(vs.Values[i]) {
+							fresh++
+						} else {
+							otherAssign++
+						}
+					}
+				}
+			}
+		}
+		return true
+	})
+	if fresh != 1 || otherAssign != 0 {
+		return false, "the destination `" + dst + "` is not a fresh []string assigned only by the append in the loop"
+	}
+	// ---- the helper returns the destination
+	if lp.fn != nil {
+		rets, good := 0, 0
+		ast.Inspect(lp.fn.Body, func(m ast.Node) bool {
+			if _, ok := m.(*ast.FuncLit); ok {
+				return false
+			}
+			if r, ok := m.(*ast.ReturnStmt); ok {
+				rets++
+				if len(r.Results) == 1 && exprString(r.Results[0]) == dst {
+					good++
+				}
+			}
+			return true
+		})
+		if rets == 0 || rets != good {
+			return false, "the helper does not return the destination slice on every path"
+		}
+	}
+	return true, "range over os.Environ() appending the kept entries to the fresh slice `" + dst + "`"
+}
+
+// exprString2 renders a type expression ([]string) that exprString does not cover.
+func exprString2(e ast.Expr) string {
+	if at, ok := e.(*ast.ArrayType); ok && at.Len == nil {
+		return "[]" + exprString2(at.Elt)
+	}
+	if e == nil {
+		return ""
+	}
+	return exprString(e)
+}
+
+// isFreshStringSlice: make([]string, 0[, n]) | []string{} | []string(nil) | nil
+func isFreshStringSlice(e ast.Expr) bool {
+	switch x := e.(type) {
+	case *ast.CallExpr:
+		if id, ok := x.Fun.(*ast.Ident); ok && id.Name == "make" && (len(x.Args) == 2 || len(x.Args) == 3) {
+			if exprString2(x.Args[0]) != "[]string" {
+				return false
+			}
+			bl, ok := x.Args[1].(*ast.BasicLit)
+			return ok && bl.Value == "0"
+		}
+		if exprString2(x.Fun) == "[]string" && len(x.Args) == 1 && exprString(x.Args[0]) == "nil" {
+			return true
+		}
+	case *ast.CompositeLit:
+		return exprString2(x.Type) == "[]string" && len(x.Elts) == 0
+	}
+	return false
 }
 
 // leanBytesOfString renders a Go string as a Lean `List UInt8` literal.
@@ -189,7 +480,8 @@ var envNameRe = regexp.MustCompile(`^[A-Za-z_][A-Za-z0-9_]*$`)
 
 // filterNames collects the environment-variable-shaped string constants the
 // code under n refers to (following package-level helpers `depth` calls deep),
-// and reports whether that code ranges over something (the filter loop).
+// and reports whether that code loops over something (the filter loop: a
+// `range` or a three-clause `for`).
 func filterNames(p *pkgs, n ast.Node, depth int) ([]string, bool) {
 	seen := map[string]bool{}
 	hasRange := false
@@ -217,7 +509,7 @@ func filterNames(p *pkgs, n ast.Node, depth int) ([]string, bool) {
 	walk = func(n ast.Node, depth int) {
 		ast.Inspect(n, func(m ast.Node) bool {
 			switch x := m.(type) {
-			case *ast.RangeStmt:
+			case *ast.RangeStmt, *ast.ForStmt:
 				hasRange = true
 			case *ast.BasicLit:
 				addExpr(x)
